@@ -1,6 +1,7 @@
 import RedisVerif.Model.Conn
 import RedisVerif.Lemmas.Conn
 import RedisVerif.Lemmas.ConnWrite
+import RedisVerif.Lemmas.ConnSim
 
 /-
   C04 — pipelining: exactly one reply per command, in order, however the bytes arrive.
@@ -637,6 +638,62 @@ example : NoFail [.accept 1, .accept 7, .accept 2] = true ∧
 example : (runW cfg14 refExec ExSt.init [.accept 6, .fail] [stream [cmdSetKV, cmdGetK, cmdPing]] none).out =
     [43, 79, 75, 13, 10, 36] ∧
     (runW cfg14 refExec ExSt.init [.accept 6, .accept 0] [stream [cmdSetKV, cmdGetK, cmdPing]] none).ended = true := by
+  decide
+
+/-! ## 5. the MIRROR the repository's own connection tests use (Model/ConnSim.lean)
+
+`SimulatedConnection::process` (src/simulator/connection.rs) is a second, hand-written implementation
+of the read loop ("This mirrors `OptimizedConnectionHandler::run()`"): the repository's pipelining
+tests run IT, not the production handler.  What does a test through the mirror say about the
+production loop? -/
+
+open RedisVerif.ConnSim
+
+/-- full statement: on every input, in every segmentation, the mirror answers as many frames as the
+    production handler (with the guarded `check_acl_permission`) does -/
+def C04_mirror_faithful (cmdErr : Val → Bool) : Prop :=
+  ∀ (chunks : List Bytes), Small chunks.flatten →
+    (simRun cfgG.env cmdErr chunks).done.length = replyCount (run cfgG chunks)
+
+/-- PARTIAL — and stronger on its domain: on every WELL-FORMED pipeline of commands the command
+    parser accepts, for any two segmentations (the mirror's random partial reads, the network's
+    segments and the handler's read size), under every configuration, the mirror executes exactly the
+    frames the production handler executes, in the same order, each once -/
+theorem mirror_agrees_on_wellformed_partial (cfg : Config) (h14 : cfg.headerLen = 14) (hc : cfg.codec = codec1)
+    (cmdErr : Val → Bool) (cmds : List Cmd) (chunks segs : List Bytes)
+    (hch : chunks.flatten = stream cmds) (hseg : segs.flatten = stream cmds)
+    (hs : Small (stream cmds)) (hmax : (stream cmds).length ≤ cfg.maxBuffer) (hok : ∀ c ∈ cmds, CmdOK cfg c)
+    (hd : 2 ≤ cfg.env.depth) (hce : ∀ c ∈ cmds, cmdErr (cmdFrame c) = false) :
+    (simRun cfg.env cmdErr chunks).done = execFrames (run cfg segs) ∧
+    (simRun cfg.env cmdErr chunks).buf = [] ∧ (simRun cfg.env cmdErr chunks).crashed = false := by
+  rw [simRun_wf cfg.env cmdErr hd cmds chunks hch hs hce,
+    segmentation_independent_cmdok cfg h14 hc (by omega) cmds segs hseg hs hmax hok, execFrames_execAll]
+  exact ⟨rfl, rfl, rfl⟩
+
+/-- `GET` without a key: a well-formed frame that `Command::from_resp_zero_copy` rejects -/
+def isGetNoKey : Val → Bool
+  | .array [.bulk [71, 69, 84]] => true
+  | _ => false
+
+/-- COUNTEREXAMPLE 1: a frame the RESP grammar rejects (`?x\r\n`) — the production handler answers
+    `-ERR protocol error`, the mirror clears its buffer and answers NOTHING -/
+theorem mirror_silent_on_protocol_error_counterexample : ¬ C04_mirror_faithful (fun _ => false) := by
+  intro h
+  have := h [[63, 120, 13, 10]] (by decide)
+  exact absurd this (by decide)
+
+/-- COUNTEREXAMPLE 2: `GET` (no key), then `PING`, in one read — the production handler answers both
+    (an error, then PONG); the mirror `break`s at the rejected command without a reply and leaves
+    PING unexecuted in its buffer until more bytes arrive -/
+theorem mirror_stalls_after_rejected_command_counterexample : ¬ C04_mirror_faithful isGetNoKey := by
+  intro h
+  have := h [stream [[[71, 69, 84]], cmdPing]] (by decide)
+  exact absurd this (by decide)
+
+example : replyCount (run cfgG [stream [[[71, 69, 84]], cmdPing]]) = 2 ∧
+    (simRun cfgG.env isGetNoKey [stream [[[71, 69, 84]], cmdPing]]).done.length = 0 ∧
+    (simRun cfgG.env isGetNoKey [stream [[[71, 69, 84]], cmdPing]]).buf = stream [cmdPing] ∧
+    (simRun cfgG.env isGetNoKey [(stream [cmdGetK, cmdPing]).take 7, (stream [cmdGetK, cmdPing]).drop 7]).done.length = 2 := by
   decide
 
 end RedisVerif.C04
